@@ -334,7 +334,7 @@ def verify(contract, tier, check, budget=None, prefix=None):
             rep.obligations += 1
             continue
         except Exception as e:
-            check.engine_error(f"{contract.key}[{shape.name}]: executor crashed: {e!r}\n{traceback.format_exc()[-600:]}")
+            check.engine_error(f"{contract.key}[{shape.name}]: executor crashed: {e!r}\n{traceback.format_exc()[-2500:]}")
             continue
         rep.paths += len(outs)
         n_return = 0
